@@ -342,16 +342,20 @@ def h_two_libraries(d: bool):
     groups = dict(zip(NAMES, x))
     first = choose('first', 2)
     order = [libA, libB] if first == 0 else [libB, libA]
-    rads = []
+    rads, vals = [], []
+    if REPLAY is not None and not (_quad(M3, x) >= 0):
+        return skip()
     for lib in order:
         est = m['gd'].ThermochemGroupAdditive(lib, groups)
         st, v, rad = _se(est, 'get_HoRT')
         if st != 'value':
             return finish(False, st)
         rads.append(rad)
+        vals.append(v)
     want = rm.r['get_HoRT'] * rm.r['get_HoRT'] * _quad(M3, x)
+    labels = ['first library used', 'two_libraries: the second library used gives a different radicand']
     if REPLAY is None:
-        ok, lab = all_close([(rads[0], want), (rads[1], want)], ['first library used', 'two_libraries: the second library used gives a different radicand'])
+        ok, lab = all_close([(rads[0], want), (rads[1], want)], labels)
     else:
-        ok, lab = True, 'ok'
+        ok, lab = all_close([(vals[0] * vals[0], want), (vals[1] * vals[1], want)], labels)
     return finish(ok, lab)
